@@ -300,7 +300,7 @@ class Check:
             src = os.path.join(COQ, t[:-1])  # .vo -> .v
             if os.path.exists(src) and "/Props/" in src:
                 txt = open(src).read()
-                nthm += len(re.findall(r"(?m)^(Theorem|Example|Lemma|Corollary)\s", txt))
+                nthm += len(re.findall(r"(?m)^\s*(Theorem|Example|Lemma|Corollary)\s", txt))
         self.coverage["obligations"] += max(nthm, 1)
         self.coverage["checker_cmd"] = "make -C coq -j16 " + " ".join(targets) + "  (coqc 8.16.1, full .vo)"
         if ok:
